@@ -149,3 +149,128 @@ def run_l0(seed: int, tier: str):
         if got[1] != m:
             dis.append({"case": [style, text], "impl": got[1], "model": m})
     return dis, vio, len(idx), {"docstring_type_expressions_by_kind": kinds}
+
+
+# ---------------------------------------------------------------------------------------------------------
+# section extraction: Model/DocSections.v against DocstringParser.get_*_documentation
+def dump_gdoc(ds, numpy: bool):
+    """griffe Docstring -> [value, [section...]] ; None -> ()"""
+    from griffe.enumerations import DocstringSectionKind as K
+    if ds is None:
+        return []
+    secs = []
+    for sec in ds.parsed:
+        if sec.kind == K.text:
+            secs.append(["text", sec.value])
+        elif sec.kind == K.examples:
+            secs.append(["examples", [ex[1] for ex in sec.value]])
+        elif sec.kind in (K.parameters, K.attributes, K.returns):
+            tag = {K.parameters: "params", K.attributes: "attrs", K.returns: "returns"}[sec.kind]
+            items = []
+            for it in sec.value:
+                ann = getattr(it, "annotation", None)
+                name = getattr(it, "name", None) or ""
+                default = getattr(it, "default", None)
+                items.append([name, vlib.opt(None if ann is None else dump(ann, ds, numpy)), it.description,
+                              vlib.opt(str(default) if default else None),
+                              vlib.opt(dump(name, ds, numpy) if (tag == "returns" and name) else None)])
+            secs.append([tag, items])
+        else:
+            secs.append(["other"])
+    return [[ds.value, secs]]
+
+
+def _walk(obj, seen):
+    if id(obj) in seen:
+        return
+    seen.add(id(obj))
+    yield obj
+    for m in getattr(obj, "members", {}).values():
+        if getattr(m, "is_alias", False):
+            continue
+        yield from _walk(m, seen)
+
+
+def run_sections_l0(seed: int, tier: str):
+    from types import SimpleNamespace
+    from griffe.enumerations import Parser
+    import logging
+    import safeds_stubgen.api_analyzer  # noqa: F401
+    from safeds_stubgen.docstring_parsing._docstring_parser import DocstringParser
+    logging.getLogger("griffe").setLevel(logging.CRITICAL)
+    rng = random.Random(seed + 1313)
+    npk = 3 if tier == "quick" else 12
+    base = implrun.scratch_dir("docsections")
+    cases, expect, tags = [], [], []
+
+    def tsx(t):
+        return vlib.opt(None if t is None else vlib.ty_sx(t))
+
+    for i in range(npk):
+        style = ["numpydoc", "google", "rest"][i % 3]
+        numpy = style == "numpydoc"
+        p = gen_pkg.gen_package(rng, i, style=style, nmods=2, doc_types="rich" if i % 2 else True, reexports=False,
+                                result_name_grid=(i % 3 == 0))
+        root = base / f"t{i}"
+        implrun.write_tree(root, gen_pkg.package_files(p))
+        parser = DocstringParser({"numpydoc": Parser.numpy, "google": Parser.google, "rest": Parser.sphinx}[style], root / p.name)
+        for obj in _walk(parser.griffe_build, set()):
+            q = obj.path
+            try:
+                if obj.is_class:
+                    gd = dump_gdoc(obj.docstring, numpy)
+                    d = parser.get_class_documentation(SimpleNamespace(fullname=q))
+                    cases.append(vlib.sx(["doc_sections", style, "general", [], gd, "", False, False]))
+                    expect.append([d.description, d.full_docstring, list(d.examples)])
+                    tags.append((style, "class", q))
+                    ctor = obj.members.get("__init__")
+                    cgd = dump_gdoc(getattr(ctor, "docstring", None) if ctor is not None and not getattr(ctor, "is_alias", False) else None, numpy)
+                    names = {m.name for m in obj.members.values() if getattr(m, "is_attribute", False)} | {"missing_attr", "*starred"}
+                    for sec in (obj.docstring.parsed if obj.docstring else []):
+                        if getattr(sec.kind, "name", "") == "attributes":
+                            names |= {it.name for it in sec.value}
+                    for an in sorted(names):
+                        a = parser.get_attribute_documentation(q.replace(".", "/"), an)
+                        cases.append(vlib.sx(["doc_sections", style, "attr", gd, cgd, an, False, False]))
+                        expect.append([tsx(a.type), a.description])
+                        tags.append((style, "attr", f"{q}.{an}"))
+                elif obj.is_function:
+                    gd = dump_gdoc(obj.docstring, numpy)
+                    d = parser.get_function_documentation(SimpleNamespace(fullname=q))
+                    cases.append(vlib.sx(["doc_sections", style, "general", [], gd, "", False, False]))
+                    expect.append([d.description, d.full_docstring, list(d.examples)])
+                    tags.append((style, "function", q))
+                    rs = parser.get_result_documentation(q)
+                    cases.append(vlib.sx(["doc_sections", style, "results", [], gd, "", False, False]))
+                    expect.append([[tsx(r.type), r.description, r.name] for r in rs])
+                    tags.append((style, "results", q))
+                    parent = obj.parent
+                    is_init = obj.name == "__init__"
+                    on_class = bool(is_init and parent is not None and parent.is_class)
+                    pgd = dump_gdoc(parent.docstring if on_class else None, numpy)
+                    pnames = {prm.name for prm in obj.parameters} | {"missing_param", "*args", "**kwargs"}
+                    for pn in sorted(pnames):
+                        pr = parser.get_parameter_documentation(function_qname=q, parameter_name=pn,
+                                                                parent_class_qname=parent.path.replace(".", "/") if on_class else "")
+                        cases.append(vlib.sx(["doc_sections", style, "param", pgd, gd, pn, on_class, is_init]))
+                        expect.append([tsx(pr.type), pr.default_value, pr.description])
+                        tags.append((style, "param", f"{q}({pn})"))
+            except Exception as e:  # noqa: BLE001
+                tags.append((style, "harness", f"{q}: {type(e).__name__}: {e}"))
+                cases.append(None)
+                expect.append(None)
+    implrun.cleanup()
+    idx = [k for k, c in enumerate(cases) if c is not None]
+    answers = vlib.run_model([cases[k] for k in idx])
+    by = dict(zip(idx, answers, strict=True))
+    dis = []
+    kinds: dict[str, int] = {}
+    for k, (tg, ex) in enumerate(zip(tags, expect, strict=True)):
+        if cases[k] is None:
+            dis.append({"case": list(tg), "what": "the harness could not query the implementation"})
+            continue
+        kinds[tg[1]] = kinds.get(tg[1], 0) + 1
+        want = vlib.parse_sx(vlib.sx(ex))
+        if by[k] != want:
+            dis.append({"case": list(tg), "impl": want, "model": by[k]})
+    return dis, len(idx), {"docstring_section_queries_by_kind": kinds}
